@@ -43,12 +43,12 @@ def replay(w, ctx):
 
 def floors(m, tier):
     c = m['counters']
-    need = 1500 if tier == 'quick' else 18000
+    need = 1500 if tier == 'quick' else 9000
     out = []
     if c.get('c01_matchings_judged', 0) < need:
         out.append('only %d printed matchings judged (< %d)' % (c.get('c01_matchings_judged', 0), need))
     if len(m['distinct']) < need // 3:
         out.append('only %d non-trivial cases (< %d)' % (len(m['distinct']), need // 3))
-    if c.get('probe_points', 0) < (300 if tier == 'quick' else 10000):
+    if c.get('probe_points', 0) < (300 if tier == 'quick' else 5000):
         out.append('pin probe saw only %d points' % c.get('probe_points', 0))
     return out
